@@ -52,7 +52,11 @@ class Ref:
                 self.force(d)
             v = self.world.nodes[i].value
         elif k == "src":
-            if nd["deps"]:
+            for d in nd.get("xdeps", []):
+                self.force(d)
+            if nd.get("alias"):
+                v = self.raw(nd["deps"][0]["n"])
+            elif nd["deps"]:
                 w = nd["deps"][0]["n"]
                 v = W(self.raw(w))
             else:
@@ -185,7 +189,7 @@ def needed(spec, ood=frozenset(), output=None, registry=True):
         if not act:
             continue
         if nd["k"] == "src":
-            for d in nd["deps"]:
+            for d in list(nd["deps"]) + list(nd.get("xdeps", [])):
                 pull(d, False)
             continue
         for a in specs.node_args(nd):
